@@ -412,22 +412,16 @@ def check_drop_mode_agreement(ctx):
             f"drop-frame correction and the other does not, so to_frames(from_frames(n)) != n at those rates")
 
 
-def check_parse_rate(ctx):
-  """FIN-parse: the frame rate of a parsed SMPTE label.  An `HH:MM:SS:FF` label counts at the rate
-  it is given, whatever that rate; an `HH:MM:SS;FF` (drop-frame) label counts at the given rate if
-  that already has denominator 1001, else at rate x 1000/1001.  Both return paths of
-  SmpteTimeCode.parse are followed symbolically and the rate argument of the constructor is
-  evaluated for a grid of base rates."""
+def _parse_rate_by_paths(ctx, f, rates):
+  """fallback of FIN-parse: both return paths followed symbolically (the reference shape)"""
   from fractions import Fraction as F
   from ..consteval import ConstEval, NotConst
   ix = ctx.ix
-  f = ix.func("ttconv.time_code:SmpteTimeCode.parse")
-  ctx.unit(f.module)
   rate_p = f.params[-1]
   ce = ConstEval(ix, symbolic_ok=False)
   wrong, n = [], 0
   for label, outcomes, want in (("non-drop `:` label", [True], lambda r: r), ("drop-frame `;` label", [False, True], lambda r: r if r.denominator == 1001 else r * F(1000, 1001))):
-    for r in (F(24), F(25), F(30), F(60), F(30000, 1001), F(60000, 1001), F(24000, 1001)):
+    for r in rates:
       seq = list(outcomes)
 
       def decide(test, r=r, seq=seq):
@@ -443,17 +437,68 @@ def check_parse_rate(ctx):
       try:
         kind, rexpr = match.path_result(f.node, decide)
       except match.PathUndecided as e:
-        raise AnalysisError(f"{f.qualname}: the path of a {label} could not be followed ({e})")
+        ctx.undecide("FIN-parse", f"{f.qualname}: the path of a {label} could not be followed ({e})")
+        return None, 0
       n += 1
-      if kind != "return" or not isinstance(rexpr, ast.Call) or len(rexpr.args) < 5:
-        wrong.append(f"{label} at {r}: no SmpteTimeCode(...) is returned")
-        continue
+      if kind != "return" or not isinstance(rexpr, ast.Call) or len(rexpr.args) < 5 or any(isinstance(a_, ast.Starred) for a_ in rexpr.args):
+        ctx.undecide("FIN-parse", f"{f.qualname}: the value returned for a {label} is not a SmpteTimeCode(...) display the rule reads")
+        return None, 0
       try:
         got = ce.ev(f.module, rexpr.args[4], f.cls, {rate_p: r})
       except NotConst as e:
-        raise AnalysisError(f"{f.qualname}: the rate argument `{short(rexpr.args[4], 60)}` leaves the evaluable subset ({e})")
+        ctx.undecide("FIN-parse", f"{f.qualname}: the rate argument `{short(rexpr.args[4], 60)}` leaves the evaluable subset ({e})")
+        return None, 0
       if got != want(r):
         wrong.append(f"{label} at base rate {r}: counted at {got}, must be {want(r)}")
+  return wrong, n
+
+
+def check_parse_rate(ctx):
+  """FIN-parse: the frame rate of a parsed SMPTE label.  An `HH:MM:SS:FF` label counts at the rate
+  it is given, whatever that rate; an `HH:MM:SS;FF` (drop-frame) label counts at the given rate if
+  that already has denominator 1001, else at rate x 1000/1001.  Both return paths of
+  SmpteTimeCode.parse are followed symbolically and the rate argument of the constructor is
+  evaluated for a grid of base rates."""
+  from fractions import Fraction as F
+  from ..consteval import ConstEval, NotConst, Raised as _R
+  from ..rules.minieval import MiniEval
+  ix = ctx.ix
+  f = ix.func("ttconv.time_code:SmpteTimeCode.parse")
+  ctx.unit(f.module)
+  wrong, n = [], 0
+  rates = (F(24), F(25), F(30), F(60), F(30000, 1001), F(60000, 1001), F(24000, 1001))
+  # first by interpretation on sample labels (the constructor replaced by a recorder of its arguments) ...
+  decided = True
+  for label, text, want in (("non-drop `:` label", "01:02:03:04", lambda r: r), ("drop-frame `;` label", "01:02:03;04", lambda r: r if r.denominator == 1001 else r * F(1000, 1001))):
+    for r in rates:
+      me = MiniEval(ix, opaque_calls={"SmpteTimeCode": None})
+      try:
+        me.call(f, [text, r])
+      except _R:
+        wrong.append(f"{label} {text!r} at base rate {r}: parse raises")
+        n += 1
+        continue
+      except NotConst:
+        decided = False
+        break
+      made = [t_ for t_ in me.trace if t_[0] == "opaque" and t_[1] == "SmpteTimeCode"]
+      n += 1
+      if len(made) != 1 or len(made[0][2]) < 5:
+        wrong.append(f"{label} at {r}: no SmpteTimeCode(h, m, s, f, rate) is built")
+        continue
+      args_ = made[0][2]
+      if tuple(args_[:4]) != (1, 2, 3, 4):
+        wrong.append(f"{label} {text!r}: fields {tuple(args_[:4])} instead of (1, 2, 3, 4)")
+      if args_[4] != want(r):
+        wrong.append(f"{label} at base rate {r}: counted at {args_[4]}, must be {want(r)}")
+    if not decided:
+      break
+  if not decided:
+    wrong, n = [], 0
+    wrong_, n = _parse_rate_by_paths(ctx, f, rates)
+    if wrong_ is None:
+      return
+    wrong = wrong_
   ctx.check(not wrong, "FIN-parse", f"{f.qualname}|a parsed label counts at the rate it was given", ctx.where(f.module, f.node), f"{n} (syntax, base rate) combinations",
             "; ".join(wrong[:3]) + ": offsets computed from such a label are off by the ratio of the two rates")
 
